@@ -29,6 +29,7 @@ class Instance:
         self.kind, self.X, self.labels, self.D, self.nu, self.m, self.metric = kind, X, list(labels), D, nu, m, metric
         self.n = len(labels)
         self.Xarr = None
+        self.forms = []      # how the arguments of this instance were handed to the library (harness/drive.py)
 
     def key(self):
         return (self.kind, self.metric, tuple(self.labels), tuple(map(tuple, self.D)), self.nu, self.m)
@@ -36,7 +37,8 @@ class Instance:
     def desc(self):
         return dict(kind=self.kind, metric=self.metric, n=self.n, nu=self.nu, m=self.m, labels=self.labels,
                     X=None if self.X is None else [list(map(float, r)) for r in self.X],
-                    D=None if self.X is not None else [list(map(float, r)) for r in self.D])
+                    D=None if self.X is not None else [list(map(float, r)) for r in self.D],
+                    argument_forms=list(self.forms))
 
 
 def gen_labels(rng, n, kmax=4):
@@ -77,7 +79,7 @@ def typed_array(rng, X, kind):
 GEN_ERRORS = []     # exceptions raised by the library while an instance was being prepared (flushed by supcheck.corr)
 
 
-def gen_features(rng, n, nu, m, metric=None, lattice=False, tie_free=False):
+def gen_features(rng, n, nu, m, metric=None, lattice=False, tie_free=False, literal=False):
     dim = rng.randint(1, 4)
     N = n + nu + m
     pos = metric in POS_METRICS
@@ -90,6 +92,10 @@ def gen_features(rng, n, nu, m, metric=None, lattice=False, tie_free=False):
             if pos and dim >= 2 and rng.random() < 0.5:
                 # sparse non-negative rows (histograms, counts): exact zeros are in the domain of the decorated metrics
                 X = [[0.0 if rng.random() < 0.3 else v for v in r] for r in X]
+        if not lattice and (literal or rng.random() < 0.2):
+            # data written as literals: some rows in whole numbers (the first row among them), the others with fractions
+            X = [[float(round(v)) for v in r] if (i == 0 or rng.random() < 0.5) else [round(v) + rng.choice([0.25, 0.4, 0.5, 0.75]) for v in r]
+                 for i, r in enumerate(X)]
         if m and not lattice:
             # some queries are copies of training rows, midpoints, or far away
             for i in range(n + nu, N):
@@ -131,8 +137,18 @@ def gen_matrix(rng, N, alphabet=None, symmetric=True, tie_free=False):
     return D
 
 
-def gen_instance(rng, nmax=10, nu=0, m=0, tie_free=False, kinds=("feat", "mat", "lattice", "feat", "mat", "lattice", "tiny", "sparse")):
+def gen_instance(rng, nmax=10, nu=0, m=0, tie_free=False, kinds=("feat", "mat", "lattice", "feat", "mat", "lattice", "tiny", "sparse", "literal")):
     kind = rng.choice(kinds)
+    if kind == "literal":
+        # rows as a user types them (whole numbers in some rows, fractions in others), handed over as lists / tuples / a list
+        # of per-row arrays (see _rows)
+        n = rng.randint(2, nmax)
+        labels = gen_labels(rng, n)
+        metric = rng.choice(["log_squared_euclidean", "euclidean", "manhattan", "canberra"])
+        X, D = gen_features(rng, n, nu, m, metric, tie_free=tie_free, literal=True)
+        if X is not None:
+            return Instance("literal", X, labels, D, nu, m, metric)
+        kind = "feat"
     if kind == "asym":
         # non-symmetric dissimilarities (C03 quantifies over every distance function): d(train, query) is what counts
         n = rng.randint(2, nmax)
@@ -267,16 +283,37 @@ def embed_matrix(D):
     return np.array(big, dtype=float), np.array(idx)
 
 
+import drive as _drive
+
+_DRV = random.Random(20261001)       # argument forms / pokes / file-or-attribute: deterministic in the call sequence
+FORM_METRICS = ("log_squared_euclidean", "euclidean", "manhattan", "canberra")   # dtype-changing forms only here (numba specialisations)
+LAYOUT_FORMS = ("c", "c", "fortran", "strided", "readonly")
+POKED = []                            # rejected assignments that left something behind (flushed by the checks)
+
+
 def make_model(inst, cls):
     """Construct the model in the branch matching the instance (metric on features, or pre-computed matrix)."""
     if inst.X is not None:
         opf = cls(distance=inst.metric)
         X = np.array(inst.X, dtype=float) if inst.Xarr is None else inst.Xarr
+        msg = _drive.poke(opf, _DRV, 0.3)
+        if msg:
+            POKED.append(dict(what=msg, model=cls.__name__, instance=inst.desc()))
         return opf, X, None
-    opf = cls()
-    opf.pre_computed_distance = True
     big, idx = embed_matrix(inst.D)
-    opf.pre_distances = big
+    if _DRV.random() < 0.35:
+        # through a file that re-uses one name for every matrix (a model built on the name sees the current content)
+        path = _drive.matrix_file(big, _DRV)
+        opf = cls(pre_computed_distance=path)
+        inst.forms.append("matrix:" + os.path.basename(path))
+    else:
+        opf = cls()
+        opf.pre_computed_distance = True
+        opf.pre_distances = big
+        inst.forms.append("matrix:attribute")
+    msg = _drive.poke(opf, _DRV, 0.3)
+    if msg:
+        POKED.append(dict(what=msg, model=cls.__name__, instance=inst.desc()))
     N = len(inst.D)
     X = np.zeros((N, 1))
     return opf, X, idx
@@ -284,7 +321,13 @@ def make_model(inst, cls):
 
 def _rows(inst, X, a, b):
     """rows a..b-1 as handed to the library: a copy normally, the raw (typed / strided) view for Xarr instances"""
-    return X[a:b] if getattr(inst, "Xarr", None) is not None else X[a:b].copy()
+    if getattr(inst, "Xarr", None) is not None:
+        return X[a:b]
+    if inst.X is None:
+        return X[a:b].copy()
+    obj, form = _drive.present(X[a:b], _DRV, ("lists", "tuples", "rowlist") if inst.kind == "literal" else _drive.FORMS if inst.metric in FORM_METRICS else LAYOUT_FORMS)
+    inst.forms.append("X:" + form)
+    return obj
 
 
 def node_state(sg):
@@ -394,11 +437,15 @@ def impl_predict(opf, inst, rows=None):
     rows = list(range(n + nu, n + nu + m)) if rows is None else rows
     if inst.X is not None:
         Xq = np.array([inst.X[r] for r in rows], dtype=float) if inst.Xarr is None else inst.Xarr[np.array(rows, dtype=int)]
-        preds = opf.predict(Xq)
+        if inst.Xarr is None and len(rows):
+            Xq, form = _drive.present(Xq, _DRV, ("lists", "tuples", "rowlist") if inst.kind == "literal" else _drive.FORMS if inst.metric in FORM_METRICS else LAYOUT_FORMS)
+            inst.forms.append("Xq:" + form)
+        preds = opf.predict(Xq) if _DRV.random() < 0.7 else opf.predict(X_val=Xq, I_val=None)
     else:
         Xq = np.zeros((len(rows), 1))
         _, idx = embed_matrix(inst.D)
-        preds = opf.predict(Xq, idx[np.array(rows, dtype=int)])
+        Iq = idx[np.array(rows, dtype=int)]
+        preds = opf.predict(Xq, Iq) if _DRV.random() < 0.5 else opf.predict(Xq, I_val=Iq)
     return [int(p) for p in preds], [int(x.relevant) for x in opf.subgraph.nodes]
 
 
